@@ -44,6 +44,9 @@ func (c20) Gen(r *rand.Rand, tier string, i int) any {
 	if i%10 == 3 {
 		p = gen.RandClosureProgram(r) // non-linear recursion whose later atoms need facts of later rounds
 	}
+	if i%4 == 1 {
+		gen.AddIDBFacts(r, &p) // rule-defined predicates with unit clauses of their own, anywhere in the clause list
+	}
 	return progCase{Prog: p, Text: progText(p)}
 }
 
